@@ -159,22 +159,45 @@ def _justify(db, f, n, K):
     return None
 
 
-def _summary_min_size(db, f, n, key, K):
-    """`switch (r)` with r = g(x): inside case E the facts that dominate g's `return E` hold for x"""
+def _discriminant(db, f, n):
+    """(callee g, set of enumerator labels) when n executes only if a local initialised by g(...) equals one of the labels:
+    inside `case L:` of `switch (r)` or under a dominating `r == L` test (both forms of the same idiom)"""
+    def init_of(ref):
+        for s0 in f.rec['stmts']:
+            if s0['k'] == 'DeclStmt':
+                for d in s0.get('decls', []):
+                    if d.get('did') == ref.get('did') and 'init' in d:
+                        return f.strip(f.stmts[d['init']])
+        return None
     cases = [a for a in f.ancestors(n) if a['k'] == 'CaseStmt']
     sws = [a for a in f.ancestors(n) if a['k'] == 'SwitchStmt']
-    if not cases or not sws:
-        return 0, None
-    cond = f.strip(f.stmts[sws[0]['cond']])
-    if cond['k'] != 'DeclRefExpr':
-        return 0, None
-    init = None
-    for s0 in f.rec['stmts']:
-        if s0['k'] == 'DeclStmt':
-            for d in s0.get('decls', []):
-                if d.get('did') == cond.get('did') and 'init' in d and d.get('const'):
-                    init = f.strip(f.stmts[d['init']])
-    if init is None or init['k'] != 'CallExpr':
+    if cases and sws:
+        cond = f.strip(f.stmts[sws[0]['cond']])
+        if cond['k'] == 'DeclRefExpr':
+            init = init_of(cond)
+            if init is not None and init['k'] == 'CallExpr':
+                return init, {(c.get('enumerator') or '').split('::')[-1] for c in cases}
+    pos = f.position_of(n)
+    for c, pol in (dominating_guards(f, pos) if pos is not None else []):
+        c2 = f.strip(c)
+        while c2 is not None and c2['k'] == 'BinaryOperator' and c2.get('op') in ('&&', '||'):
+            c2 = f.strip(f.children(c2)[-1])
+        c2, pol2 = normalise_cond(f, c2, pol)
+        if c2 is not None and c2['k'] == 'BinaryOperator' and c2.get('op') in ('==', '!=') and (c2['op'] == '==') == pol2:
+            kids = [f.strip(x) for x in f.children(c2)]
+            en = [x for x in kids if x.get('dk') == 'enumerator']
+            ref = [x for x in kids if x['k'] == 'DeclRefExpr' and x.get('dk') == 'local']
+            if len(en) == 1 and len(ref) == 1:
+                init = init_of(ref[0])
+                if init is not None and init['k'] == 'CallExpr':
+                    return init, {en[0].get('name')}
+    return None, set()
+
+
+def _summary_min_size(db, f, n, key, K):
+    """`switch (r)` / `if (r == E)` with r = g(x): where r is E the facts that dominate g's `return E` hold for x"""
+    init, labels = _discriminant(db, f, n)
+    if init is None:
         return 0, None
     g = db.by_mn.get(init.get('mn') or '')
     if g is None or not g.has_cfg():
@@ -183,7 +206,6 @@ def _summary_min_size(db, f, n, key, K):
     if not argi:
         return 0, None
     par = g.rec['params'][argi[0]]
-    labels = {(c.get('enumerator') or '').split('::')[-1] for c in cases}
     Kg = Keyer(g)
     los = []
     for p, r in g.return_sites():
@@ -201,21 +223,12 @@ def _summary_min_size(db, f, n, key, K):
 def _stoi_bounded(db, f, n):
     """std::stoi(text) is safe when text is known to be an optionally signed digit string of bounded length: the discriminating function
     returned the case label only under IsInteger(text) and size(text) <= a constant below 10"""
-    cases = [a for a in f.ancestors(n) if a['k'] == 'CaseStmt']
-    sws = [a for a in f.ancestors(n) if a['k'] == 'SwitchStmt']
-    if not cases or not sws:
+    init, labels = _discriminant(db, f, n)
+    if init is None:
         return None
-    cond = f.strip(f.stmts[sws[0]['cond']])
-    init = None
-    for s0 in f.rec['stmts']:
-        if s0['k'] == 'DeclStmt':
-            for d in s0.get('decls', []):
-                if d.get('did') == cond.get('did') and 'init' in d:
-                    init = f.strip(f.stmts[d['init']])
-    g = db.by_mn.get((init or {}).get('mn') or '')
+    g = db.by_mn.get(init.get('mn') or '')
     if g is None:
         return None
-    labels = {(c.get('enumerator') or '').split('::')[-1] for c in cases}
     for p, r in g.return_sites():
         v = g.strip(g.stmts[r['value']]) if 'value' in r else None
         if v is not None and v.get('dk') == 'enumerator' and v.get('name') in labels:
